@@ -157,6 +157,12 @@ func RegoVersionFromVersionsMap(
 	for versionedDir := range versionsMap {
 		matchingVersionedDir := path.Join("/", versionedDir, "/")
 
+		// path.Join cleans away the trailing slash, which is needed for only
+		// whole directory names to match, i.e. /foo must not match /foobar
+		if !strings.HasSuffix(matchingVersionedDir, "/") {
+			matchingVersionedDir += "/"
+		}
+
 		if strings.HasPrefix(dir+"/", matchingVersionedDir) {
 			// >= as the versioned dir might be "" for the project root
 			if len(versionedDir) >= longestMatch {
